@@ -17,7 +17,7 @@ func TestNamespaces(t *testing.T) {
 	component(t, func(h *H) {
 		nspRawScripts(t, h)
 		nspClients(t, h)
-		nspDuringMiddleware(t, h)
+		nspDuringMiddleware(t, h, "C05")
 	})
 }
 
@@ -297,13 +297,14 @@ func containsInt(xs []int, x int) bool {
 // a namespace broadcasts while the middleware chain of a candidate socket is still deciding (the middleware has put the
 // candidate into a room): nothing of the namespace reaches the client before its CONNECT was accepted, nothing at all if it
 // is refused
-func nspDuringMiddleware(t *testing.T, h *H) {
+func nspDuringMiddleware(t *testing.T, h *H, prop string) {
 	for _, tr := range []string{"polling", "websocket"} {
 		for _, accept := range []bool{true, false} {
 			tap := newWireTap()
 			var mu sync.Mutex
 			var handled []string
 			connected := false
+			listedEarly := 0
 			synctest.Test(t, func(t *testing.T) {
 				r := newRig(nil)
 				r.server.Of("/").OnConnection(func(sio.ServerSocket) {})
@@ -326,6 +327,7 @@ func nspDuringMiddleware(t *testing.T, h *H) {
 				c.OnEvent("news", func(v string) { mu.Lock(); handled = append(handled, "news:"+v); mu.Unlock() })
 				c.Connect()
 				time.Sleep(500 * time.Millisecond) // the middleware of /vip is deciding
+				listedEarly = len(vip.Sockets()) + len(vip.FetchSockets())
 				vip.To("members").Emit("secret", "early")
 				vip.Emit("news", "early")
 				time.Sleep(2 * time.Second) // the verdict is in
@@ -338,6 +340,9 @@ func nspDuringMiddleware(t *testing.T, h *H) {
 			h.Eval()
 			h.NonTrivial(desc)
 			h.Dist("clients.duringMiddleware")
+			if listedEarly != 0 {
+				h.Violation(prop, "a socket no middleware has accepted yet is listed in its namespace", desc, fmt.Sprintf("Sockets() + FetchSockets() = %d entries while the chain was still running", listedEarly))
+			}
 			var wire []string
 			seenConnect := false
 			for _, rec := range tap.records() {
@@ -349,7 +354,7 @@ func nspDuringMiddleware(t *testing.T, h *H) {
 					seenConnect = true
 				}
 				if (rec.typ == 2 || rec.typ == 5) && !seenConnect {
-					h.Violation("C05", "a client receives traffic of a namespace before the server accepted its CONNECT for it", desc, fmt.Sprintf("packets of /vip received by the client, in order: %v", wire))
+					h.Violation(prop, "a client receives traffic of a namespace before the server accepted its CONNECT for it", desc, fmt.Sprintf("packets of /vip received by the client, in order: %v", wire))
 					break
 				}
 			}
@@ -361,7 +366,7 @@ func nspDuringMiddleware(t *testing.T, h *H) {
 			sortedHandled := append([]string(nil), handled...)
 			sort.Slice(sortedHandled, func(i, j int) bool { return sortedHandled[i] > sortedHandled[j] })
 			if fmt.Sprint(sortedHandled) != want {
-				h.Violation("C05", "a broadcast of a namespace does not reach exactly the sockets of that namespace", desc, fmt.Sprintf("the client's /vip handlers received %v, expected %s (connected=%v); wire: %v", handled, want, connected, wire))
+				h.Violation(prop, "a broadcast of a namespace does not reach exactly the sockets of that namespace", desc, fmt.Sprintf("the client's /vip handlers received %v, expected %s (connected=%v); wire: %v", handled, want, connected, wire))
 			}
 			mu.Unlock()
 		}
